@@ -62,6 +62,10 @@ type taskState struct {
 	goid uint64
 }
 
+// VisitedSites marks the yield sites (statements of the instrumented code) that were executed at least once by
+// this process while a simulation was running: the reach of the workload, measured on the code under test.
+var VisitedSites []bool
+
 // goid returns the current goroutine's id (slow; only used when the library starts goroutines of its own).
 func goid() uint64 {
 	var buf [64]byte
@@ -148,6 +152,9 @@ func (s *sched) lowestUnfinished() int {
 func (s *sched) hook(site int) {
 	if !s.active {
 		return
+	}
+	if site >= 0 && site < len(VisitedSites) {
+		VisitedSites[site] = true
 	}
 	t := s.tasks[s.cur]
 	if atomic.LoadInt32(&t.hold) > 0 {
